@@ -1225,9 +1225,42 @@ func ruleAdmissionRejectsOnlyForgeries(c *Check, p *Prog, rule string) {
 		ps = append(ps, f)
 	}
 	sort.Slice(ps, func(i, j int) bool { return fnName(ps[i]) < fnName(ps[j]) })
-	admissible := func(f Fact) bool {
+	var admissible func(f Fact) bool
+	var predicateOK func(fn *ssa.Function, depth int) bool
+	predicateOK = func(fn *ssa.Function, depth int) bool {
+		// a predicate of the package all of whose rejecting alternatives are admissible
+		if depth > 2 || fn.Blocks == nil {
+			return false
+		}
+		alts := rejectAltsPerEdge(p, fn)
+		if len(alts) == 0 {
+			return false
+		}
+		for _, alt := range alts {
+			ok := false
+			for _, f := range alt {
+				if admissible(f) {
+					ok = true
+				}
+			}
+			if !ok {
+				return false
+			}
+		}
+		return true
+	}
+	admissible = func(f Fact) bool {
 		t, pol := normFact(f.Cond, f.Pol)
 		s := t.String()
+		if t.Op == "call" && !pol {
+			if cv, ok := t.V.(*ssa.Call); ok {
+				if cal := cv.Common().StaticCallee(); cal != nil && fnPkg(cal) != nil && fnPkg(cal).Pkg.Path() == rootPath+"/block" {
+					if res := cal.Signature.Results(); res.Len() == 1 && isBoolType(res.At(0).Type()) && predicateOK(cal, 1) {
+						return true // a guard moved into a predicate that itself rejects only forgeries
+					}
+				}
+			}
+		}
 		switch {
 		case t.Op == "bin" && (t.Name == "==" || t.Name == "!=") && (t.Args[1].unconv().Name == "nil" || t.Args[0].unconv().Name == "nil"):
 			// a nil test of a part (== nil true) or an error result (!= nil true)
